@@ -45,9 +45,11 @@ HASH_SHAPES = {
 HASH_GEN_ONLY = {"SSDEEP": "ssdeep", "ssdeep": "ssdeep", "MD6": "hex32"}
 
 # ---- property patches: (version, class, property) -> dict merged into the descriptor --------------
-PATCH = {}
-for _ver in ("2.1",):
-    pass  # confidence handled generically below
+PATCH = {
+    # 2.1: "It MUST be an exact match for the modified time of the STIX Object being referenced" -- and a 2.1 `modified`
+    # may carry any number of fraction digits; the library's table (millisecond, exact) was an unaudited carry-over
+    ("2.1", "LanguageContent", "object_modified"): {"precision": "millisecond", "constraint": "min"},
+}
 
 # ---- co-constraints -----------------------------------------------------------------------------
 # kinds: at_least_one, at_most_one, xor (exactly one), requires (if present -> all of then present),
